@@ -361,6 +361,8 @@ _SCOPES = {
     "C20": (("mofun.cli.mofun_cli", None),),
 }
 for _id, _sc in _SCOPES.items():
+    PROPERTIES[_id]["rules"].append((G.G11_loop_exit_discipline, "%s a guard clause about the current item skips it (`continue`), it does not end an accumulating loop" % _id, {"scope": _sc}))
+    PROPERTIES[_id]["rules"].append((G.G12_set_order, "%s a sequence made from a set is not used as an ordered selector" % _id, {"scope": _sc}))
     PROPERTIES[_id]["rules"].append((G.G10_defined_before_use, "%s every read of a local is reached by an assignment (no statement moved above the one that defines its input)" % _id, {"scope": _sc}))
     PROPERTIES[_id]["rules"].append((G.G7_api_contract_pitfalls, "%s API contracts: insertion points as indices, span versus length, memoised functions / caching properties, stored tables tested by truth value" % _id, {"scope": _sc}))
     PROPERTIES[_id]["rules"].append((G.G4_numpy_container_pitfalls, "%s container pitfalls: ndmin=2 of an empty list, groupby on unsorted input, isinstance(., int) against numpy callers" % _id, {"scope": _sc}))
